@@ -75,6 +75,12 @@ def strip_top_all(s):
 def locate(ctx: Ctx, h: ba.Hit):
     site = vg.site_of(h.node)
     if site is None:
+        # untagged node (operator expression): locate through the first located operand
+        for n in vg.walk(h.node):
+            st = vg.site_of(n)
+            if st is not None:
+                fn, _ = ctx.repo.locate(*st)
+                return fn, vg.show(h.node, 3).replace('"', "'"), f"{st[0]}:{st[1]}"
         return None, vg.show(nf.norm(h.node), 4), ""
     fn, text = ctx.repo.locate(*site)
     return fn, text.replace('"', "'"), f"{site[0]}:{site[1]}"
@@ -143,6 +149,15 @@ def run(ctx: Ctx):
         if rs is None or rs.td is None:
             raise AnalysisError(f"{cname}._reset not resolved")
         ranks.learn_from_reset(rs.td)
+        from ..envs import generator_slot
+        g, gsl = generator_slot(ctx.repo, env.cls)
+        if gsl is not None and gsl.td is not None:
+            gr = ba.RankFacts()
+            gr.learn_from_reset(gsl.td)
+            for k, v in rs.td.cells.items():
+                v0 = nf.strip(v)
+                if v0.op == "cell0" and v0.args[1] in gr.cell_rank and k not in ranks.cell_rank:
+                    ranks.cell_rank[k] = gr.cell_rank[v0.args[1]]
         uni = uniform_keys(env)
         for meth in ("_reset", "_step", "get_action_mask", "_get_reward", "check_solution_validity"):
             if meth in ("get_action_mask", "check_solution_validity") and not env.own(meth):
@@ -168,6 +183,7 @@ def run(ctx: Ctx):
                 for i, e in enumerate(sl.events("assert")):
                     for j, part in enumerate(strip_top_all(e.data)):
                         sinks.append((f"assert@{getattr(e.node, 'lineno', i)}", part))
+            ranks.learn_loop_invariants()
             per_hit = {}
             for sink, v in sinks:
                 for h in ba.hits(v, ranks):
